@@ -798,7 +798,15 @@ func engGen(c *runCtx, run func([]string)) {
 			default:
 				s := c.rng.IntN(g.n)
 				ops = append(ops, fmt.Sprintf("eng mode s=%d m=ro reset=0", s))
-				ops = append(ops, fmt.Sprintf("eng evac src=%d ord=%s bord=%s ignore=%d", s, g.perm(), g.perm(), c.rng.IntN(2)))
+				if g.n >= 3 && c.rng.IntN(3) == 0 {
+					// several sources in one call (objects may be held by more than one of them after an
+					// earlier evacuation)
+					s2 := (s + 1 + c.rng.IntN(g.n-1)) % g.n
+					ops = append(ops, fmt.Sprintf("eng mode s=%d m=ro reset=0", s2))
+					ops = append(ops, fmt.Sprintf("eng evac src=%d,%d ord=%s bord=%s ignore=%d", s, s2, g.perm(), g.perm(), c.rng.IntN(2)))
+				} else {
+					ops = append(ops, fmt.Sprintf("eng evac src=%d ord=%s bord=%s ignore=%d", s, g.perm(), g.perm(), c.rng.IntN(2)))
+				}
 			}
 		}
 		run(ops)
